@@ -135,6 +135,133 @@ fn drive_reader_kind(bytes: &[u8], rs: &RSchema, kind: &ReaderKind, nvals: usize
 	}
 }
 
+/// The same damaged bytes through the crate's other public reading entry points (C17 quantifies over
+/// "the reader", not over `deserialize_seed_next`): values as Debug strings of the untyped owned value.
+#[derive(Debug, Clone, PartialEq)]
+enum AltItem {
+	Val(String),
+	Err(String),
+	End,
+}
+
+const ALT_APIS: [&str; 5] = ["deserialize_next_borrowed(slice)", "deserialize_next(slice)", "deserialize_next(bufreader7)", "deserialize-iterator-restarted(slice)", "deserialize_borrowed-iterator-restarted(slice)"];
+
+fn drive_alt_api(bytes: &[u8], api: usize, nvals: usize) -> Result<Vec<AltItem>, String> {
+	use crate::props::c11::AnyOwned;
+	use serde_avro_fast::object_container_file_encoding::Reader;
+	let mut items: Vec<AltItem> = Vec::new();
+	let mut push = |items: &mut Vec<AltItem>, r: Result<Option<AnyOwned>, String>| -> bool {
+		match r {
+			Ok(Some(v)) => items.push(AltItem::Val(format!("{:?}", v.0))),
+			Ok(None) => items.push(AltItem::End),
+			Err(e) => items.push(AltItem::Err(e)),
+		}
+		let ends = items.iter().filter(|x| **x == AltItem::End).count();
+		let errs = items.iter().filter(|x| matches!(x, AltItem::Err(_))).count();
+		ends >= 3 || errs > 18 || items.len() >= nvals + 40
+	};
+	if api == 2 {
+		let mut r = Reader::from_reader(std::io::BufReader::with_capacity(7, bytes)).map_err(|e| e.to_string())?;
+		loop {
+			let x = r.deserialize_next::<AnyOwned>().map_err(|e| e.to_string());
+			if push(&mut items, x) {
+				break;
+			}
+		}
+		return Ok(items);
+	}
+	let mut r = Reader::from_slice(bytes).map_err(|e| e.to_string())?;
+	loop {
+		let x = match api {
+			0 => r.deserialize_next_borrowed::<AnyOwned>().map_err(|e| e.to_string()),
+			1 => r.deserialize_next::<AnyOwned>().map_err(|e| e.to_string()),
+			3 => r.deserialize::<AnyOwned>().next().transpose().map_err(|e| e.to_string()),
+			_ => r.deserialize_borrowed::<AnyOwned>().next().transpose().map_err(|e| e.to_string()),
+		};
+		if push(&mut items, x) {
+			break;
+		}
+	}
+	Ok(items)
+}
+
+/// judge2's rules over an alternate-API outcome
+fn judge_alt(items: &[AltItem], want: &[String], exp: Expectation, damage_is_truncation_or_io: bool, every_error_is_framing: bool) -> Option<String> {
+	let mut next = 0usize;
+	let mut seen_err = false;
+	let mut errs_in_a_row = 0usize;
+	let mut max_errs_in_a_row = 0usize;
+	let mut unrecoverable_seen = false;
+	for it in items {
+		match it {
+			AltItem::Val(v) => {
+				errs_in_a_row = 0;
+				let judged = match exp {
+					Expectation::Robust => false,
+					Expectation::MustErr => !seen_err,
+					Expectation::PrefixOnly => true,
+				};
+				if judged && (next >= want.len() || &want[next] != v) {
+					return Some(if seen_err { "value-that-was-not-written-yielded-after-error".into() } else { "value-that-was-not-written-yielded".into() });
+				}
+				if unrecoverable_seen {
+					return Some("value-yielded-after-unrecoverable-error".into());
+				}
+				next += 1;
+			}
+			AltItem::Err(e) => {
+				seen_err = true;
+				errs_in_a_row += 1;
+				max_errs_in_a_row = max_errs_in_a_row.max(errs_in_a_row);
+				if unrecoverable_seen {
+					return Some("error-repeated-after-unrecoverable-error (expected end of stream)".into());
+				}
+				if every_error_is_framing || e.contains("sync marker") || e.contains("Encountered IO error") {
+					unrecoverable_seen = true;
+				}
+			}
+			AltItem::End => errs_in_a_row = 0,
+		}
+	}
+	if exp == Expectation::MustErr && !seen_err {
+		return Some("damage-not-reported (read to the end without error)".into());
+	}
+	if damage_is_truncation_or_io && max_errs_in_a_row > 16 {
+		return Some("truncated-input-keeps-producing-errors".into());
+	}
+	None
+}
+
+/// Runs one alternate entry point over damaged bytes and judges it; returns (signature, detail)
+fn alt_api_check(ctx: &mut Ctx, rng: &mut Rng, damaged: &[u8], rs: &RSchema, vals: &[Val], exp: Expectation, trunc: bool, framing: bool) -> Option<(String, serde_json::Value)> {
+	use crate::bridge::collect::untyped;
+	let api = rng.below(ALT_APIS.len());
+	let want: Vec<String> = vals.iter().map(|v| format!("{:?}", untyped(rs, 0, v))).collect();
+	match drive_alt_api(damaged, api, vals.len()) {
+		Err(_) => {
+			ctx.count("alt_api_rejected_at_open");
+			None
+		}
+		Ok(items) => {
+			ctx.count(&format!("alt_api_driven:{}", ALT_APIS[api]));
+			if items.iter().any(|x| matches!(x, AltItem::Err(_))) {
+				ctx.count("alt_api_outcomes_with_error");
+			}
+			judge_alt(&items, &want, exp, trunc, framing).map(|sig| {
+				let shape: Vec<String> = items
+					.iter()
+					.map(|x| match x {
+						AltItem::Val(_) => "V".to_owned(),
+						AltItem::End => "END".to_owned(),
+						AltItem::Err(e) => format!("E({})", e.chars().take(80).collect::<String>()),
+					})
+					.collect();
+				(format!("{sig} api={}", ALT_APIS[api]), serde_json::json!({"api": ALT_APIS[api], "outcome_shape": shape}))
+			})
+		}
+	}
+}
+
 /// Returns a violation signature if the outcome breaks the expectation
 fn judge(out: &Outcome, vals: &[Val], exp: Expectation, damage_is_truncation_or_io: bool) -> Option<String> {
 	judge2(out, vals, exp, damage_is_truncation_or_io, false)
@@ -318,6 +445,10 @@ pub fn run_case(ctx: &mut Ctx, case_seed: u64) {
 						}
 					}
 				}
+				if let Some((sig, detail)) = alt_api_check(ctx, &mut rng, damaged, &rs, &vals, Expectation::PrefixOnly, true, false) {
+					ctx.violation(format!("truncation: {sig}"), case_seed, serde_json::json!({"damage": format!("truncated at {cut} of {}", file.len()), "alt": detail, "file_hex": crate::refavro::value::hex_full(&file[..cut.min(4096)])}));
+					return;
+				}
 				ctx.count("truncations_checked");
 			}
 		}
@@ -428,6 +559,10 @@ pub fn run_case(ctx: &mut Ctx, case_seed: u64) {
 								return;
 							}
 							ctx.count("field_rewrites_detected");
+							if let Some((sig, detail)) = alt_api_check(ctx, &mut rng, &damaged, &rs, &vals, Expectation::MustErr, false, true) {
+								ctx.violation(format!("field-rewrite: {sig} codec={}", codec.name()), case_seed, serde_json::json!({"damage": label, "alt": detail, "file_hex": crate::refavro::value::hex_full(&damaged[..damaged.len().min(4096)])}));
+								return;
+							}
 						}
 					}
 				}
